@@ -622,3 +622,19 @@ def scenarios(seed, n, long_p=0.3):
         out.append(gen.scenario(nsteps, bad_p=rnd.choice([0.0, 0.15, 0.3]), pool_p=rnd.choice([0.0, 0.25, 0.4]),
                                 reorg_p=rnd.choice([0.0, 0.0, 0.12, 0.2])))
     return out
+
+
+def fork_choice_scenarios(seed, n):
+    """C05 on chains that wrap the retention window (and the block ring, 2G slots) several times: short windows,
+    ticket gaps, competing branches that overtake, a few invalid blocks"""
+    rnd = random.Random(seed * 7 + 5)
+    out = []
+    for i in range(n):
+        g = rnd.choice([2, 2, 3])
+        gen = Gen(rnd, g, 2)
+        gen.gap_p = rnd.choice([0.0, 0.3, 0.5])
+        nsteps = rnd.randint(2 * g + 3, 5 * g + 6)
+        s = gen.scenario(nsteps, bad_p=rnd.choice([0.0, 0.1]), pool_p=0.0, reorg_p=rnd.choice([0.0, 0.15, 0.3]))
+        s["tag"] = "fork-choice-long"
+        out.append(s)
+    return out
